@@ -35,6 +35,8 @@ const KINDS: [&str; 3] = ["blocking", "async", "ws"];
 enum Cmd {
     /// read `k` more whole request frames
     Read(usize),
+    /// read `k` request frames, answering each the moment it is read (tag = the caller's tag)
+    Echo(usize),
     /// send each element as one frame (TCP: one write; WebSocket: one binary message)
     Send(Vec<Vec<u8>>),
     /// raw bytes on the TCP stream (WebSocket: beneath the WebSocket layer)
@@ -153,6 +155,25 @@ async fn server_task(is_ws: bool, listener: tokio::net::TcpListener, mut cmds: t
                 let _ = match err {
                     Some(e) => ev.send(Event::SrvErr(e)),
                     None => ev.send(Event::Frames(out)),
+                };
+            }
+            Cmd::Echo(k) => {
+                let mut r = Ok(());
+                for _ in 0..k {
+                    r = match conn.read_frame().await {
+                        Ok(f) => {
+                            let c = caller_of(&f).map(|c| c as i64).unwrap_or(-1);
+                            conn.send_frame(response(f.h.id, false, c, c)).await
+                        }
+                        Err(e) => Err(e),
+                    };
+                    if r.is_err() {
+                        break;
+                    }
+                }
+                let _ = match r {
+                    Ok(()) => ev.send(Event::Done),
+                    Err(e) => ev.send(Event::SrvErr(e)),
                 };
             }
             Cmd::Send(frames) => {
@@ -643,6 +664,87 @@ fn run_batch_case(h: &H, out: &mut Out, idx: &str, case: &BatchCase) {
     let reordered = finish_order.windows(2).any(|w| w[0] > w[1]);
     out.count(&format!("mux.{}.batch.{}", kname, if reordered { "reordered" } else { "in_order" }));
     out.case(&op, &format!("{} {}", idx, obs), reordered);
+    s.send(Cmd::Close);
+}
+
+/// `k` calls one after the other from `t` threads/tasks, each answered the instant the server has read
+/// it: the response races the caller's own bookkeeping after the write.
+fn run_seq_case(h: &H, out: &mut Out, idx: &str, kind: usize, t: usize, k: usize) {
+    let kname = KINDS[kind];
+    let op = format!("seq {} {} {} {}", idx, kind, t, k);
+    out.begin(&op);
+    let ops = [op.clone()];
+    let Ok(mut s) = h.open(kind) else { return };
+    s.send(Cmd::Echo(t * k));
+    let (dtx, drx) = smpsc::channel::<(usize, usize, String)>();
+    for w in 0..t {
+        let dtx = dtx.clone();
+        let cl = s.cl.clone();
+        let body = move |j: usize| req_body(w * k + j);
+        let check = move |j: usize, r: Result<Value, RepeError>| -> Option<String> {
+            match r {
+                Ok(v) if tag_of(&v) == Some((w * k + j) as i64) => None,
+                Ok(v) => Some(format!("call {} of worker {} returned tag {:?}", j, w, tag_of(&v))),
+                Err(e) => Some(format!("call {} of worker {} failed: {}", j, w, io_kind(&e))),
+            }
+        };
+        match cl {
+            Cl::B(cl) => {
+                std::thread::spawn(move || {
+                    for j in 0..k {
+                        if let Some(e) = check(j, cl.call_json("/t", &body(j))) {
+                            let _ = dtx.send((w, j, e));
+                            return;
+                        }
+                    }
+                    let _ = dtx.send((w, k, String::new()));
+                });
+            }
+            Cl::A(cl) => {
+                h.rt.spawn(async move {
+                    for j in 0..k {
+                        if let Some(e) = check(j, cl.call_json("/t", &body(j)).await) {
+                            let _ = dtx.send((w, j, e));
+                            return;
+                        }
+                    }
+                    let _ = dtx.send((w, k, String::new()));
+                });
+            }
+            Cl::W(cl) => {
+                h.rt.spawn(async move {
+                    for j in 0..k {
+                        if let Some(e) = check(j, cl.call_json("/t", &body(j)).await) {
+                            let _ = dtx.send((w, j, e));
+                            return;
+                        }
+                    }
+                    let _ = dtx.send((w, k, String::new()));
+                });
+            }
+        }
+    }
+    let mut done = 0usize;
+    let mut okc = 0usize;
+    while done < t {
+        match drx.recv_timeout(call_watchdog()) {
+            Ok((_, j, e)) => {
+                done += 1;
+                if e.is_empty() {
+                    okc += j;
+                } else {
+                    out.oracle_fail(&format!("mux.{}.seq_wrong", kname), &e, &ops);
+                }
+            }
+            Err(_) => {
+                out.oracle_fail(&format!("mux.{}.hang", kname), &format!("a call answered immediately never returned ({} of {} workers finished): its response was lost", done, t), &ops);
+                saw_hang();
+                break;
+            }
+        }
+    }
+    out.count(&format!("mux.{}.seq", kname));
+    out.case(&op, &format!("{} ok {}", idx, okc), true);
     s.send(Cmd::Close);
 }
 
@@ -1301,6 +1403,7 @@ fn main() {
                     let script = if w[5] == "-" { vec![] } else { w[5].split(',').map(|s| s.to_string()).collect() };
                     run_mux_case(&h, &mut out, &idx, &MuxCase { kind: w[2].parse().unwrap(), n: w[3].parse().unwrap(), script });
                 }
+                Some("seq") if w.len() >= 5 => run_seq_case(&h, &mut out, &idx, w[2].parse().unwrap(), w[3].parse().unwrap(), w[4].parse().unwrap()),
                 Some("batch") if w.len() >= 6 => {
                     run_batch_case(&h, &mut out, &idx, &BatchCase { kind: w[2].parse().unwrap(), n: w[3].parse().unwrap(), w: w[4].parse().unwrap(), order: w[5].split(',').filter_map(|x| x.parse().ok()).collect() });
                 }
@@ -1317,13 +1420,20 @@ fn main() {
             }
         }
     } else if fam == "mux" {
-        out.rule = "N concurrent calls on clones of one client (blocking/async/WebSocket) against a scripted raw server that first collects all N requests, then emits a script: every permutation of the N responses for N<=4 (thorough: <=6), each adversarial frame kind (unknown id, unknown-id notify, duplicate, notify re-using an in-flight id) at every position for N=2, random scripts with several such frames for N<=64; batch_json with a windowed out-of-order server. Distinct by op line; non-trivial = at least two concurrent callers or an adversarial frame (batch: the server finished out of request order)".into();
+        out.rule = "N concurrent calls on clones of one client (blocking/async/WebSocket) against a scripted raw server that first collects all N requests, then emits a script: every permutation of the N responses for N<=4 (thorough: <=6), each adversarial frame kind (unknown id, unknown-id notify, duplicate, notify re-using an in-flight id) at every position for N=2, random scripts with several such frames for N<=64; batch_json with a windowed out-of-order server; T workers x K back-to-back calls answered the instant they are read. Distinct by op line; non-trivial = at least two concurrent callers or an adversarial frame (batch: the server finished out of request order)".into();
         let (cases, batches) = gen_mux(&args, &mut rng);
         for (i, c) in cases.iter().enumerate() {
             run_mux_case(&h, &mut out, &format!("m{i}"), c);
         }
         for (i, b) in batches.iter().enumerate() {
             run_batch_case(&h, &mut out, &format!("b{i}"), b);
+        }
+        let mut q = 0;
+        for kind in 0..3 {
+            for (t, k) in if args.thorough() { vec![(1, 2000), (4, 1000), (16, 300)] } else { vec![(1, 300), (4, 150)] } {
+                run_seq_case(&h, &mut out, &format!("q{q}"), kind, t, k);
+                q += 1;
+            }
         }
     } else {
         out.rule = "per client: each fault kind (FIN, RST via SO_LINGER 0, close with unread requests, each malformed header / WebSocket message kind, response cut at a header/body byte-offset class, WebSocket close) with 0..16 calls in flight, before or after the requests were read, optionally after answering some calls, with and without per-call timeouts; then one more call and the notify subscriber; timeouts racing the response (late / early / timed race); cancellation before write (writer stalled by a 12 MiB request) and during wait; a malformed frame delivered while another caller is stalled in write (peer not reading). Non-trivial = at least one call in flight / every timeout and cancel scenario".into();
